@@ -396,6 +396,16 @@ func init() {
 			return Iface{}
 		}
 		model := *ds.model
+		// encoding/xml refuses an element whose name differs from the target's XMLName tag
+		if sp, ok := c.args[2].(Ptr); ok && sp.c != nil {
+			if want := xmlTagName(c.args[1].(Iface).t); want != "" {
+				se := in.load(sp.c).(StructV)
+				if have, ok := se.f[0].(StructV).f[1].(Str); ok && have.sym == nil && have.rope == nil && have.s != want {
+					ds.model, ds.pendingEnd = nil, nil
+					return in.mkError("expected element type <" + want + "> but have <" + have.s + ">")
+				}
+			}
+		}
 		ds.model, ds.pendingEnd = nil, nil
 		return in.xmlCopyModel(model, c.args[1].(Iface))
 	}
@@ -459,4 +469,35 @@ func (in *Interp) xmlCopyModel(model Iface, target Iface) Value {
 		return Iface{}
 	}
 	return in.mkError("xml: document element does not match the target type (harness model " + model.t.String() + ")")
+}
+
+// xmlTagName: the element name fixed by an XMLName field tag of the (pointed-to) struct type.
+func xmlTagName(t types.Type) string {
+	for i := 0; i < 3 && t != nil; i++ {
+		p, ok := t.Underlying().(*types.Pointer)
+		if !ok {
+			break
+		}
+		t = p.Elem()
+	}
+	if t == nil {
+		return ""
+	}
+	st, ok := t.Underlying().(*types.Struct)
+	if !ok {
+		return ""
+	}
+	for i := 0; i < st.NumFields(); i++ {
+		if st.Field(i).Name() == "XMLName" {
+			tag := reflect.StructTag(st.Tag(i)).Get("xml")
+			if j := strings.Index(tag, ","); j >= 0 {
+				tag = tag[:j]
+			}
+			if j := strings.LastIndex(tag, " "); j >= 0 {
+				tag = tag[j+1:]
+			}
+			return tag
+		}
+	}
+	return ""
 }
